@@ -23,11 +23,11 @@ typedef unsigned __int128 u128;
 
 enum {
 	K_JOB_ADD, K_JOB_DEL, K_TIMER_ADD, K_TIMER_DEL, K_TIMER_QUERY, K_FD_OPEN, K_FD_ADD, K_FD_MOD, K_FD_DEL, K_FD_CLOSE,
-	K_FD_WRITE, K_FD_DRAIN, K_FD_PEER_CLOSE, K_FD_RETNEG, K_SIG_ADD, K_SIG_DEL, K_RAISE, K_STOP, K_BUSY, K_FD_CLOSE_RETNEG, K_SIG_MOD, K_N
+	K_FD_WRITE, K_FD_DRAIN, K_FD_PEER_CLOSE, K_FD_RETNEG, K_SIG_ADD, K_SIG_DEL, K_RAISE, K_STOP, K_BUSY, K_FD_CLOSE_RETNEG, K_SIG_MOD, K_NESTED, K_N
 };
 static const char *const op_names[K_N] = {
 	"job_add", "job_del", "timer_add", "timer_del", "timer_query", "fd_open", "fd_add", "fd_mod", "fd_del", "fd_close",
-	"fd_write", "fd_drain", "fd_peer_close", "fd_retneg", "sig_add", "sig_del", "raise", "stop", "busy", "fd_close_retneg", "sig_mod"
+	"fd_write", "fd_drain", "fd_peer_close", "fd_retneg", "sig_add", "sig_del", "raise", "stop", "busy", "fd_close_retneg", "sig_mod", "nested"
 };
 // Op layout: a[0] trigger (>= 0: object whose callback triggers it; -1: before the loop runs; -2: external event
 // at virtual time a[1] ns; -3: asynchronously at the a[1]-th intercepted libc call), a[1] nth invocation / time /
@@ -49,6 +49,7 @@ struct Obj {
 	int jprio = 0;
 	std::deque<uint64_t> jpend;          // add sequence numbers of pending instances
 	std::deque<int64_t> jsince;          // iteration at which each became pending
+	std::deque<int64_t> jpass;           // pass of the loop (L.pass) at which each was added: it leaves the wait list when the next pass begins
 	std::deque<int64_t> jdl;             // iteration by which each must have run
 	int readd = 0;                       // C10: re-add this many copies on every invocation
 	// timer
@@ -90,7 +91,9 @@ struct St {
 	std::deque<int> sig_inflight;                             // deliveries written to the signal pipe, not yet read by the loop
 	int sigpipe_rfd = -1;
 	int64_t clock_res_ns = 1;
-	bool eintr_just_fired = false; uint64_t clock_since_epoll = 0;
+	bool eintr_just_fired = false; uint64_t clock_since_epoll = 0; int64_t pass = 0;
+	// a second loop instance of the process, run for a few passes from inside a callback of the first (K_NESTED)
+	qb_loop_t *loop2 = NULL; bool in_nested = false; int nest_obj = -1, nest_passes = 0, nest_left = 0;
 	uint64_t callbacks = 0;
 	// C10 bookkeeping per level
 	int64_t disp_iter[3] = { 0, 0, 0 };       // dispatches in the current iteration
@@ -106,7 +109,7 @@ static St *Lp;
 
 static int p_del_queued_timer, p_del_queued_fd, p_del_queued_job, p_del_queued_sig, p_self_del, p_readd_in_cb, p_stale_handle,
 	p_slot_reuse_stale, p_fd_reuse, p_two_sig_then_del, p_retneg, p_retneg_open, p_close_retneg, p_number_reused_in_cb, p_default_loop, p_sig_mod, p_fd_mod_data, p_stop, p_throttle50, p_ms31, p_ms32, p_overflow, p_equal_expiry,
-	p_timer_fired, p_nohandle, p_long_run, p_eintr_epoll, p_eintr_retry, p_async_sig, p_hup, p_busy;
+	p_timer_fired, p_nohandle, p_nested, p_job_del_foreign, p_long_run, p_eintr_epoll, p_eintr_retry, p_async_sig, p_hup, p_busy;
 
 static void init(const char *prop)
 {
@@ -138,6 +141,8 @@ static void init(const char *prop)
 	p_long_run = counter_id("probe", "run_longer_than_1000_iterations");
 	p_eintr_epoll = counter_id("probe", "epoll_wait_eintr");
 	p_nohandle = counter_id("probe", "timer_added_without_asking_for_a_handle");
+	p_nested = counter_id("probe", "second_loop_instance_run_from_a_callback");
+	p_job_del_foreign = counter_id("probe", "job_del_naming_a_pending_timers_callback_and_data");
 	p_eintr_retry = counter_id("stat", "epoll_wait_restarted_by_the_driver_after_eintr");
 	p_async_sig = counter_id("probe", "signal_delivered_inside_loop_code");
 	p_hup = counter_id("probe", "fd_peer_closed");
@@ -214,6 +219,26 @@ static void note_callback(int prio)
 	L.disp_iter[prio]++;
 }
 
+
+// ------------------------------------------------------------------ a second loop instance
+static void nest_job(void *)
+{
+	if (--L.nest_left > 0) qb_loop_job_add(L.loop2, QB_LOOP_HIGH, NULL, nest_job);
+	else qb_loop_stop(L.loop2);
+}
+static void run_nested()
+{
+	if (L.in_nested || L.stopped || !L.loop) return;
+	if (!L.loop2) L.loop2 = qb_loop_create();
+	if (!L.loop2) return;
+	L.nest_left = L.nest_passes;
+	if (qb_loop_job_add(L.loop2, QB_LOOP_HIGH, NULL, nest_job) != 0) return;
+	L.in_nested = true;
+	qb_loop_run(L.loop2);
+	L.in_nested = false;
+	count(p_nested);
+}
+
 // ------------------------------------------------------------------ callbacks handed to the loop
 static void job_cb(void *data)
 {
@@ -229,18 +254,19 @@ static void job_cb(void *data)
 	if (!q.empty() && q.front().second != o.id)
 		VIOL(8, "job-order", "qb_loop_run", "job %d ran before job %d which was added earlier at the same priority", o.id, q.front().second);
 	for (size_t k = 0; k < q.size(); k++) if (q[k].second == o.id) { q.erase(q.begin() + (long)k); break; }
-	o.jpend.pop_front(); o.jsince.pop_front(); o.jdl.pop_front();
+	o.jpend.pop_front(); o.jsince.pop_front(); o.jdl.pop_front(); o.jpass.pop_front();
 	L.jobs_pending_total--;
 	o.invoked++;
 	for (int k = 0; k < o.readd && !L.stopped && L.fifo[o.jprio].size() < 48; k++) {
 		if (qb_loop_job_add(LP, (enum qb_loop_priority)o.jprio, &o, job_cb) == 0) {
-			o.jpend.push_back(++L.addseq); o.jsince.push_back(L.iter);
+			o.jpend.push_back(++L.addseq); o.jsince.push_back(L.iter); o.jpass.push_back(L.pass);
 			L.fifo[o.jprio].push_back(std::make_pair(L.addseq, o.id));
 			o.jdl.push_back(deadline(o.jprio));
 			L.jobs_pending_total++;
 		}
 	}
 	fire_triggers(o);
+	if (o.id == L.nest_obj) run_nested();
 }
 
 static void timer_add_model(Obj &o, int prio, uint64_t dur);
@@ -415,16 +441,24 @@ static void do_op(size_t oi, int from_obj)
 		int r = qb_loop_job_add(LP, (enum qb_loop_priority)prio, &o, job_cb);
 		if (r != 0) { VIOL(8, "job-add-failed", "qb_loop_job_add", "qb_loop_job_add returned %d", r); break; }
 		o.jprio = prio;
-		o.jpend.push_back(++L.addseq); o.jsince.push_back(L.iter);
+		o.jpend.push_back(++L.addseq); o.jsince.push_back(L.iter); o.jpass.push_back(L.pass);
 		L.fifo[prio].push_back(std::make_pair(L.addseq, o.id));
 		o.jdl.push_back(deadline(prio));
 		L.jobs_pending_total++;
 		if (from_obj == tgt) count(p_readd_in_cb);
 		break; }
 	case K_JOB_DEL: {
+		if (o.type == O_TIMER && o.tpend && o.cookie) {
+			// a job that was never added, named by the function and data of a pending (perhaps expired and queued) timer:
+			// there is no such job, and the timer is none of its business
+			int rj = qb_loop_job_del(LP, (enum qb_loop_priority)o.tprio, o.cookie, timer_cb);
+			count(p_job_del_foreign);
+			if (rj == 0) VIOL(8, "delete-of-nothing-succeeded", "qb_loop_job_del", "qb_loop_job_del naming the callback and data of pending timer %d returned 0 although no such job was ever added", o.id);
+			break;
+		}
 		if (o.type != O_JOB) break;
 		bool pend = !o.jpend.empty();
-		bool queued = pend && o.jsince.front() < L.iter;
+		bool queued = pend && o.jpass.front() < L.pass;
 		int r = qb_loop_job_del(LP, (enum qb_loop_priority)o.jprio, &o, job_cb);
 		if (pend) {
 			if (r != 0) { VIOL(8, "delete-refused", "qb_loop_job_del", "qb_loop_job_del of pending job %d returned %d", o.id, r); break; }
@@ -433,9 +467,9 @@ static void do_op(size_t oi, int from_obj)
 			// which one it was does not matter to the model except for FIFO bookkeeping: drop the newest not-yet-queued
 			// instance if there is one, else the oldest
 			size_t victim = 0;
-			for (size_t k = 0; k < o.jsince.size(); k++) if (o.jsince[k] >= L.iter) { victim = k; break; }
+			for (size_t k = 0; k < o.jpass.size(); k++) if (o.jpass[k] >= L.pass) { victim = k; break; }
 			uint64_t seq = o.jpend[victim];
-			o.jpend.erase(o.jpend.begin() + (long)victim); o.jsince.erase(o.jsince.begin() + (long)victim); o.jdl.erase(o.jdl.begin() + (long)victim);
+			o.jpend.erase(o.jpend.begin() + (long)victim); o.jsince.erase(o.jsince.begin() + (long)victim); o.jdl.erase(o.jdl.begin() + (long)victim); o.jpass.erase(o.jpass.begin() + (long)victim);
 			std::deque<std::pair<uint64_t, int> > &q = L.fifo[o.jprio];
 			for (size_t k = 0; k < q.size(); k++) if (q[k].first == seq) { q.erase(q.begin() + (long)k); break; }
 			L.jobs_pending_total--;
@@ -630,6 +664,11 @@ static void do_op(size_t oi, int from_obj)
 		L.stopped = true; L.stop_by_plan = true;
 		count(p_stop);
 		break;
+	case K_NESTED:
+		// from now on every run of job object tgt also runs the helper loop for a[3] passes
+		if (o.type != O_JOB || L.ns > 0) break;       // (the signal pipe is one per process: a second loop would take it over)
+		L.nest_obj = tgt; L.nest_passes = (int)(1 + ((op.a[3] % 6) + 6) % 6);
+		break;
 	case K_BUSY: {
 		int64_t d = op.a[3] < 0 ? 0 : op.a[3];
 		if (d > 3600LL * 1000000000LL) d = 3600LL * 1000000000LL;
@@ -686,13 +725,17 @@ static void c10_iteration_boundary()
 
 static void on_epoll_wait(int timeout)
 {
+	if (L.in_nested) return;        // the helper loop's own waits
 	L.cb_since_epoll = 0;
 	// a wait restarted after EINTR is not a new iteration, but it is a wait: how long it may last is judged like any other
 	// (whether the driver restarted the wait itself or the loop went round its other sources first - it has then read the
 	// clock - the interrupted wait has reported no descriptor: for the bounds counted in iterations the two are one)
 	bool retry = L.eintr_just_fired;
-	if (retry) { L.eintr_just_fired = false; count(p_eintr_epoll); if (L.clock_since_epoll == 0) count(p_eintr_retry); }
+	bool driver_retry = retry && L.clock_since_epoll == 0;
+	if (retry) { L.eintr_just_fired = false; count(p_eintr_epoll); if (driver_retry) count(p_eintr_retry); }
 	L.clock_since_epoll = 0;
+	// (but the loop did go round its sources: jobs added before this point have left the wait list)
+	if (!driver_retry) L.pass++;
 	if (!retry) {
 		c10_iteration_boundary();
 		L.iter++;
@@ -877,6 +920,9 @@ static void gen(const char *prop, RunSpec &spec)
 				}
 			}
 		}
+		// now and then the process has a second loop instance which one of the HIGH-or-whatever jobs runs for a few passes
+		// every time it is dispatched: what one loop does must not disturb the rotation of the other
+		if (nj > 0 && r.chance(1, 6)) p.add(0, K_NESTED, -1, 0, (int64_t)r.below((uint64_t)nj), r.below(6));
 		// finite bursts on top
 		int nb = (int)r.range(0, 12);
 		for (int k = 0; k < nb; k++) {
@@ -894,6 +940,7 @@ static void gen(const char *prop, RunSpec &spec)
 	if (nj + nt + nf + ns == 0) nj = 1;
 	p.set("njobs", nj); p.set("ntimers", nt); p.set("nfds", nf); p.set("nsigs", ns);
 	p.set("max_iter", r.range(50, 600));
+	if (w == 8 && ns == 0 && nj > 0 && r.chance(1, 10)) p.add(0, K_NESTED, -1, 0, (int64_t)r.below((uint64_t)nj), r.below(6));
 	int nobj = nj + nt + nf + ns;
 	int nops = r.chance(1, 2) ? (int)r.range(2, 14) : (int)r.range(14, 70);
 	// swarm weights
@@ -934,7 +981,8 @@ static void gen(const char *prop, RunSpec &spec)
 				else if (z < 90) d = r.below(100ULL * 1000000000ULL);
 				else d = r.u64() >> r.below(40);
 				p.add(0, K_TIMER_ADD, trg, nth, t, r.below(3), (int64_t)d);
-			} else if (y < 80) p.add(0, K_TIMER_DEL, trg, nth, t, r.below(8));
+			} else if (y < 78) p.add(0, K_TIMER_DEL, trg, nth, t, r.below(8));
+			else if (y < 84 && w == 8) p.add(0, K_JOB_DEL, trg, nth, t);      // (a job delete naming this timer's callback and data)
 			else p.add(0, K_TIMER_QUERY, trg, nth, t, r.below(8));
 		} else if (x < wj + wt + wf) {
 			int64_t t = nj + nt + (int64_t)r.below((uint64_t)nf);
@@ -1018,6 +1066,7 @@ static void loop_task(void *)
 		if (o.type == O_SIG && o.sreg) { qb_loop_signal_del(LP, o.sh); o.sreg = false; }
 		if (o.type == O_FD && o.reg) { qb_loop_poll_del(LP, o.rfd); o.reg = false; }
 	}
+	if (L.loop2) { qb_loop_destroy(L.loop2); L.loop2 = NULL; }
 	qb_loop_destroy(L.loop);
 	L.loop = NULL;
 }
